@@ -217,10 +217,18 @@ theorem bind {x : M α} {f : α → M β} (hx : Fr x) (hf : ∀ a, Fr (f a)) : F
 
 end Fr
 
+theorem freeClusters_sameBack (host n : Nat) (fz : Bool) (d : Dev) :
+    SameBack d (freeClusters host n fz d).1 := by
+  rw [(freeClusters_frame host n fz d).1]; exact ⟨rfl, rfl, rfl, rfl⟩
+
+/-- statement unchanged; re-proved through the growth path (`growReftable` touches only
+    `rc`, `rt`, `rtLen`, the header's reftable fields and `needFlush`) -/
 theorem ensureRefblock_fr (off : Nat) : Fr (ensureRefblock off) := by
-  refine ⟨fun d => ?_⟩; unfold ensureRefblock; dsimp only
-  repeat' split
-  all_goals exact ⟨rfl, rfl, rfl, rfl⟩
+  refine ⟨fun d => ?_⟩
+  apply ensureRefblock_rel SameBack SameBack.refl (fun _ _ _ => SameBack.trans)
+  · intro i d _; rw [growReftable_frame]; exact ⟨rfl, rfl, rfl, rfl⟩
+  · intro i d; rw [ensureRefblockIn_frame]; exact ⟨rfl, rfl, rfl, rfl⟩
+  · exact freeClusters_sameBack
 
 theorem allocRange_fr (c0 s n : Nat) : Fr (allocRange c0 s n) := by
   refine ⟨fun d => ?_⟩; rw [allocRange_frame]; exact ⟨rfl, rfl, rfl, rfl⟩
